@@ -28,6 +28,26 @@ fn on_consume(n: usize) {
     marker(&format!("ACK {total}"));
 }
 
+/// Packet type of the packet sink runs. Serialising shows up in the syscall
+/// trace: the sink serialises a packet right after taking it off the queue,
+/// so "SER k" means packets 0..k-1 were taken before, and packet k just now.
+#[derive(Debug, Default, Clone, Copy)]
+struct Pkt(u32);
+
+impl rustradio::Sample for Pkt {
+    type Type = Pkt;
+    fn size() -> usize {
+        4
+    }
+    fn parse(data: &[u8]) -> rustradio::Result<Pkt> {
+        Ok(Pkt(u32::from_le_bytes(data.try_into().map_err(|_| rustradio::Error::msg("size"))?)))
+    }
+    fn serialize(&self) -> Vec<u8> {
+        marker(&format!("SER {}", self.0));
+        self.0.to_le_bytes().to_vec()
+    }
+}
+
 fn count_maps() -> usize {
     std::fs::read_to_string("/proc/self/maps").map(|s| s.lines().count()).unwrap_or(0)
 }
@@ -47,12 +67,17 @@ fn main() {
                 _ => Mode::Append,
             };
             let chunks: Vec<usize> = args[5..].iter().map(|s| s.parse().unwrap()).collect();
-            rustradio::verif::set_default_stream_size(Some(4 * 4096));
-            UNIT.store(if args[4] == "stream" { 4 } else { 5 }, std::sync::atomic::Ordering::SeqCst);
+            // "stream-big": a stream of 128 pages, so that one work() call can
+            // find more than 65536 samples waiting.
+            let pages = if args[4] == "stream-big" { 128 } else { 4 };
+            let capacity = pages * 4096 / 4;
+            rustradio::verif::set_default_stream_size(Some(pages * 4096));
+            let is_stream = args[4].starts_with("stream");
+            UNIT.store(if is_stream { 4 } else { 5 }, std::sync::atomic::Ordering::SeqCst);
             rustradio::verif::set_consume_hook(Some(on_consume));
             let mut total = 0usize;
             let mut serial = 0u32;
-            if args[4] == "stream" {
+            if is_stream {
                 let (w, r) = new_stream::<u32>();
                 let mut sink = match FileSink::<u32>::new(r, path, mode) {
                     Ok(s) => s,
@@ -74,7 +99,7 @@ fn main() {
                     // work() until it has consumed everything.
                     loop {
                         sink.work().unwrap();
-                        if w.free() == 4096 {
+                        if w.free() == capacity {
                             break;
                         }
                     }
@@ -82,8 +107,8 @@ fn main() {
                     marker(&format!("RETURNED {total}"));
                 }
             } else {
-                let (w, r) = new_nocopy_stream::<u32>();
-                let mut sink = match NoCopyFileSink::<u32>::new(r, path, mode) {
+                let (w, r) = new_nocopy_stream::<Pkt>();
+                let mut sink = match NoCopyFileSink::<Pkt>::new(r, path, mode) {
                     Ok(s) => s,
                     Err(e) => {
                         println!("CTOR-ERR {e}");
@@ -93,9 +118,25 @@ fn main() {
                 println!("CTOR-OK");
                 std::io::stdout().flush().unwrap();
                 marker("START");
+                let burst = args[4] == "packet-burst";
                 for c in chunks {
+                    if burst {
+                        // The whole chunk is queued before the sink runs.
+                        for _ in 0..c {
+                            w.push(Pkt(serial), &[]);
+                            serial += 1;
+                        }
+                        while w.verif_len() > 0 {
+                            sink.work().unwrap();
+                            // Every packet taken off the queue by a returned
+                            // call, serialised plus a newline.
+                            total = (serial as usize - w.verif_len()) * 5;
+                            marker(&format!("RETURNED {total}"));
+                        }
+                        continue;
+                    }
                     for _ in 0..c {
-                        w.push(serial, &[]);
+                        w.push(Pkt(serial), &[]);
                         serial += 1;
                         sink.work().unwrap();
                         // Each packet is serialized plus a newline.
